@@ -1,7 +1,11 @@
 import CsVerif.Lemmas.C09
 /-! C09 property theorems: the XorEncoded file view refines a read-only file over the decoded bytes;
-candidate detection.  Vocabulary (`Layout`, `Abs`, `plainRead`, `XorFile.withPos`) is in `Lemmas/C09.lean`,
-the model and the specification (`rollDecode`, `plainRun`, `seeksNonneg`) in `Model/C09.lean`. -/
+candidate detection (parameterised theorems first, then — section "detection with the real scanner" — `from_file` with
+`utils.iter_find_needle` itself, model `C15.iterFindNeedle`, for every buffer size and without any scanner hypothesis);
+seeks to negative logical positions characterised exactly (they do NOT refine a plain file: `history_refines_all_seeks_false`).
+Vocabulary (`Layout`, `Abs`, `plainRead`, `XorFile.withPos`, `realHits`, `sizeOffsets`, `realCandidates`, `SizeRel`, `mzVerdict`,
+`rawTarget`, `belowStart`, `logicalTarget`, `plainBelowStart`) is in `Lemmas/C09.lean`, the model (`fromFileReal`, …) and the
+specification (`rollDecode`, `plainRun`, `seeksNonneg`) in `Model/C09.lean`. -/
 namespace C09
 
 /-! ### the specification is the inverse of the encoder -/
@@ -325,6 +329,364 @@ theorem detect_correct_full_partial (stub nonce size enc : Bytes) (hn : nonce.le
   rw [mzVerdict_spec f stub.length _ h0 (some 0) x' hx']
   rfl
 
+/-! ### detection with the real scanner: no hypothesis about `iter_find_needle` -/
+
+/-- `from_file` with the real block scanner is the `fromFileFull` of the earlier theorems, instantiated with the hits the
+scanner reports on this file; the scanner never raises here and its Python ints are exactly those naturals. -/
+theorem fromFileReal_refines (B : Nat) (f : PyFile) (maxrange : Nat) :
+    fromFileReal B f maxrange = fromFileFull f maxrange (realHits B f maxrange) ∧
+    fromFileReal B f maxrange = tryCandidates f (mzVerdict f) (realCandidates B f maxrange) ∧
+    ∃ hits f2, markerScan B f maxrange = .ok (hits, f2) ∧ f2.data = f.data ∧ f2.kind = f.kind ∧
+      (1 ≤ B → hits = (realHits B f maxrange).map Int.ofNat) := by
+  refine ⟨fromFileReal_full B f maxrange, fromFileReal_try B f maxrange, ?_⟩
+  obtain ⟨hits, f2, h, hd, hk⟩ := markerScan_ok B f maxrange
+  exact ⟨hits, f2, h, hd, hk, fun hB => markerScan_nonneg B hB f maxrange hits f2 h⟩
+
+/-- What the real scanner reports for the marker, for every buffer size `B ≥ 1` and every limit: only true occurrences
+of `ff ff ff` (below `2·maxrange` when a limit is given), ascending, and every occurrence that ends at or before
+`maxrange`; all occurrences when `maxrange = 0` (which `iter_find_needle` reads as "no limit"). -/
+theorem real_hits_characterised (B : Nat) (hB : 1 ≤ B) (f : PyFile) (maxrange : Nat) :
+    (∀ h ∈ realHits B f maxrange, h ∈ C15.occ f.data eofMarker ∧ (maxrange ≠ 0 → h ≤ 2 * maxrange)) ∧
+    (∀ h ∈ C15.occ f.data eofMarker, maxrange = 0 ∨ h + 3 ≤ maxrange → h ∈ realHits B f maxrange) ∧
+    (realHits B f maxrange).Pairwise (· < ·) ∧
+    (maxrange = 0 → realHits B f maxrange = C15.occ f.data eofMarker) := by
+  refine ⟨fun h hh => ⟨(realHits_sublist B hB f maxrange).subset hh, fun hm => realHits_bound B f maxrange hm h hh⟩,
+    fun h hh hl => realHits_complete B hB f maxrange h hh hl,
+    (C15.occ_sorted _ _).sublist (realHits_sublist B hB f maxrange), ?_⟩
+  rintro rfl
+  exact realHits_nolimit B hB f
+
+/-- `iter_nonce_offsets(fh, maxrange=maxrange)` yields exactly the offsets `c < maxrange` with eight readable bytes
+whose decoded size dword satisfies `u32(nonce ^ size) + c + 8 == file size`. -/
+theorem size_offsets_exact (f : PyFile) (maxrange c : Nat) :
+    c ∈ sizeOffsets f maxrange ↔ c < maxrange ∧ SizeRel f.data (f.data.length : Int) c :=
+  sizeOffsets_iff f maxrange c
+
+/-- The candidates `from_file` tries, with the real scanner: each one is pointed at by a true marker occurrence or
+satisfies the size relation (soundness), and every offset `≤ maxrange` preceded by the marker and every
+size-consistent offset `< maxrange` is a candidate (completeness) — for every buffer size. -/
+theorem real_candidates_characterised (B : Nat) (hB : 1 ≤ B) (f : PyFile) (maxrange c : Nat) :
+    (c ∈ realCandidates B f maxrange →
+      (∃ h ∈ C15.occ f.data eofMarker, c = h + 3 ∧ (maxrange ≠ 0 → h ≤ 2 * maxrange)) ∨
+      (c < maxrange ∧ SizeRel f.data (f.data.length : Int) c)) ∧
+    ((∃ h ∈ C15.occ f.data eofMarker, c = h + 3 ∧ (maxrange = 0 ∨ c ≤ maxrange)) ∨
+      (c < maxrange ∧ SizeRel f.data (f.data.length : Int) c) → c ∈ realCandidates B f maxrange) := by
+  obtain ⟨hs, hc, _, _⟩ := real_hits_characterised B hB f maxrange
+  simp only [realCandidates, candidates_mem, size_offsets_exact]
+  constructor
+  · rintro (⟨h, hh, rfl⟩ | h)
+    · exact Or.inl ⟨h, (hs h hh).1, rfl, (hs h hh).2⟩
+    · exact Or.inr h
+  · rintro (⟨h, hh, rfl, hl⟩ | h)
+    · exact Or.inl ⟨h, hc h hh (by omega), rfl⟩
+    · exact Or.inr h
+
+/-- A stage `stub ++ nonce ++ size ++ enc` whose stub ends with the marker (and is not longer than `maxrange`), or
+whose size dword is correct (stub shorter than `maxrange`), or both: its true nonce offset is among the candidates
+produced with the REAL scanner, for every buffer size. -/
+theorem true_offset_is_candidate_real (B : Nat) (hB : 1 ≤ B) (stub nonce size enc : Bytes)
+    (hn : nonce.length = 4) (hs : size.length = 4) (f : PyFile) (hd : f.data = stub ++ nonce ++ size ++ enc)
+    (maxrange : Nat)
+    (h : (∃ s0, stub = s0 ++ eofMarker ∧ (maxrange = 0 ∨ stub.length ≤ maxrange)) ∨
+         (u32 (C20.xor nonce size) + (stub.length : Int) + 8 = (f.data.length : Int) ∧ stub.length < maxrange)) :
+    stub.length ∈ realCandidates B f maxrange := by
+  apply (real_candidates_characterised B hB f maxrange stub.length).2
+  rcases h with ⟨s0, rfl, hl⟩ | ⟨hsz, hlt⟩
+  · left
+    refine ⟨s0.length, ?_, ?_, hl⟩
+    · rw [hd]
+      have : s0 ++ eofMarker ++ nonce ++ size ++ enc = s0 ++ eofMarker ++ (nonce ++ size ++ enc) := by
+        simp only [List.append_assoc]
+      rw [this]
+      exact marker_occ_of_layout s0 _
+    · simp only [List.length_append]; rfl
+  · right
+    refine ⟨hlt, ?_, ?_⟩
+    · rw [hd]; simp only [List.length_append, hn, hs]; omega
+    · have e1 : (f.data.drop stub.length).take 4 = nonce := by
+        rw [hd]; simp only [List.append_assoc]; rw [List.drop_left, List.take_left' hn]
+      have e2 : (f.data.drop (stub.length + 4)).take 4 = size := by
+        have : stub.length + 4 = (stub ++ nonce).length := by simp [hn]
+        rw [hd, this]; simp only [List.append_assoc]
+        rw [← List.append_assoc stub nonce, List.drop_left, List.take_left' hs]
+      rw [e1, e2]; exact hsz
+
+/-- `from_file` (real scanner) succeeds iff some candidate's decoded view passes the MZ check -/
+theorem detect_ok_iff_real (B : Nat) (f : PyFile) (maxrange : Nat) :
+    (∃ x, fromFileReal B f maxrange = .ok x) ↔ ∃ c ∈ realCandidates B f maxrange, mzVerdict f c = true := by
+  obtain ⟨l, f1, hl, _, _⟩ := iterNonceOffsets_ok f maxrange
+  rw [fromFileReal_full, fromFileFull_refines, realCandidates, sizeOffsets_of_scan hl]
+  exact detect_ok_iff f maxrange _ _ l f1 hl
+
+/-- the result is the view at the first candidate, in Counter order, that passes the MZ check, at logical offset 0 -/
+theorem detect_first_passing_real (B : Nat) (f : PyFile) (maxrange : Nat)
+    (pre : List Nat) (c : Nat) (post : List Nat) (hc : realCandidates B f maxrange = pre ++ c :: post)
+    (hpre : ∀ d ∈ pre, mzVerdict f d = false) (hok : mzVerdict f c = true) :
+    ∃ x0, mk' f c = .ok x0 ∧ fromFileReal B f maxrange = .ok (x0.withPos (c + 8)) ∧
+      (x0.withPos (c + 8)).nonceOff = c ∧ tell (x0.withPos (c + 8)) = 0 := by
+  obtain ⟨l, f1, hl, _, _⟩ := iterNonceOffsets_ok f maxrange
+  rw [fromFileReal_full, fromFileFull_refines]
+  rw [realCandidates, sizeOffsets_of_scan hl] at hc
+  exact detect_first_passing f maxrange _ _ l f1 hl pre c post hc hpre hok
+
+/-- Rejection: `from_file` never raises anything but ValueError, and raises it exactly when no candidate passes. -/
+theorem detect_rejects_real (B : Nat) (f : PyFile) (maxrange : Nat) :
+    (∀ e, fromFileReal B f maxrange = .error e → e = .valueError) ∧
+    (fromFileReal B f maxrange = .error .valueError ↔ ∀ c ∈ realCandidates B f maxrange, mzVerdict f c = false) := by
+  have key : (∀ c ∈ realCandidates B f maxrange, mzVerdict f c = false) →
+      fromFileReal B f maxrange = .error .valueError := by
+    intro h
+    rw [fromFileReal_try]
+    exact tryCandidates_reject _ _ f h
+  have hiff := detect_ok_iff_real B f maxrange
+  constructor
+  · intro e he
+    have : ∀ c ∈ realCandidates B f maxrange, mzVerdict f c = false := by
+      intro c hc
+      cases hm : mzVerdict f c with
+      | false => rfl
+      | true =>
+        obtain ⟨x, hx⟩ := hiff.mpr ⟨c, hc, hm⟩
+        rw [hx] at he; cases he
+    rw [key this] at he
+    injection he with he
+    exact he.symm
+  · constructor
+    · intro he c hc
+      cases hm : mzVerdict f c with
+      | false => rfl
+      | true =>
+        obtain ⟨x, hx⟩ := hiff.mpr ⟨c, hc, hm⟩
+        rw [hx] at he; cases he
+    · exact key
+
+/-- Soundness of a positive answer: the returned view sits at a candidate offset (hence, by
+`real_candidates_characterised`, behind a true marker occurrence or at a size-consistent offset), its decoded content
+passes the MZ check, every higher-ranked candidate failed it, and the view stands at logical position 0. -/
+theorem detect_sound_real (B : Nat) (f : PyFile) (maxrange : Nat) (x : XorFile)
+    (h : fromFileReal B f maxrange = .ok x) :
+    ∃ pre post x0, realCandidates B f maxrange = pre ++ x.nonceOff :: post ∧ (∀ d ∈ pre, mzVerdict f d = false) ∧
+      mzVerdict f x.nonceOff = true ∧ mk' f x.nonceOff = .ok x0 ∧ x = x0.withPos (x.nonceOff + 8) ∧ tell x = 0 := by
+  obtain ⟨c, hc, hm⟩ := (detect_ok_iff_real B f maxrange).mp ⟨x, h⟩
+  obtain ⟨pre, d, post, hsplit, hpre, hd⟩ := first_passing_split (mzVerdict f) _ ⟨c, hc, hm⟩
+  obtain ⟨x0, hx0, hr, hn, ht⟩ := detect_first_passing_real B f maxrange pre d post hsplit hpre hd
+  rw [h] at hr
+  injection hr with hr
+  subst hr
+  rw [hn]
+  exact ⟨pre, post, x0, hsplit, hpre, hd, hx0, rfl, ht⟩
+
+/-- the (modelled) MZ check accepts the true nonce offset of a stage whose plaintext starts with a PE image -/
+theorem true_offset_passes (stub nonce size enc : Bytes) (hn : nonce.length = 4) (hs : size.length = 4)
+    (f : PyFile) (hd : f.data = stub ++ nonce ++ size ++ enc)
+    (e : Nat) (hpe : PeHeaderAt0 (rollDecode nonce enc) 1024 e) : mzVerdict f stub.length = true := by
+  have h0 := mk'_spec stub nonce size enc hn hs f hd
+  have hL : Layout stub nonce size enc (⟨{ f with pos := stub.length + 8 }, stub.length, nonce, size⟩ : XorFile) :=
+    ⟨hd, hn, hs, rfl, rfl⟩
+  obtain ⟨x', hx'⟩ := findMz_header hL 1024 e hpe
+  rw [mzVerdict_spec f stub.length _ h0 (some 0) x' hx']
+  rfl
+
+/-- End-to-end detection with the real scanner, for every buffer size: a stage whose plaintext starts with a PE image
+is detected at its true nonce offset — the returned view satisfies `Layout`, stands at logical position 0 and so (by
+`history_refines`) is a read-only file over the decoded bytes — under `NoSpuriousCandidate` only: no candidate ranked
+before the true offset decodes to something that passes the MZ check. -/
+theorem detect_correct_real_partial (B : Nat) (stub nonce size enc : Bytes) (hn : nonce.length = 4) (hs : size.length = 4)
+    (f : PyFile) (hd : f.data = stub ++ nonce ++ size ++ enc) (maxrange : Nat)
+    (e : Nat) (hpe : PeHeaderAt0 (rollDecode nonce enc) 1024 e)
+    (hns : NoSpuriousCandidate (realCandidates B f maxrange) (mzVerdict f) stub.length) :
+    ∃ x, fromFileReal B f maxrange = .ok x ∧ Layout stub nonce size enc x ∧
+      x.fh.pos = stub.length + 8 + 0 ∧ tell x = 0 := by
+  obtain ⟨l, f1, hl, _, _⟩ := iterNonceOffsets_ok f maxrange
+  rw [fromFileReal_full]
+  rw [realCandidates, sizeOffsets_of_scan hl] at hns
+  exact detect_correct_full_partial stub nonce size enc hn hs f hd maxrange _ l f1 hl e hpe hns
+
+/-- The same with the marker / size-dword condition in place of "is a candidate": if the stub ends with the marker
+or the size dword is right, and no OTHER candidate passes the MZ check, detection returns the true view. -/
+theorem detect_correct_real_unique (B : Nat) (hB : 1 ≤ B) (stub nonce size enc : Bytes)
+    (hn : nonce.length = 4) (hs : size.length = 4)
+    (f : PyFile) (hd : f.data = stub ++ nonce ++ size ++ enc) (maxrange : Nat)
+    (hcand : (∃ s0, stub = s0 ++ eofMarker ∧ (maxrange = 0 ∨ stub.length ≤ maxrange)) ∨
+         (u32 (C20.xor nonce size) + (stub.length : Int) + 8 = (f.data.length : Int) ∧ stub.length < maxrange))
+    (e : Nat) (hpe : PeHeaderAt0 (rollDecode nonce enc) 1024 e)
+    (huniq : ∀ d ∈ realCandidates B f maxrange, d ≠ stub.length → mzVerdict f d = false) :
+    ∃ x, fromFileReal B f maxrange = .ok x ∧ Layout stub nonce size enc x ∧
+      x.fh.pos = stub.length + 8 + 0 ∧ tell x = 0 := by
+  have hmem := true_offset_is_candidate_real B hB stub nonce size enc hn hs f hd maxrange hcand
+  have hok := true_offset_passes stub nonce size enc hn hs f hd e hpe
+  obtain ⟨pre, d, post, hsplit, hpre, hdok⟩ := first_passing_split (mzVerdict f) _ ⟨_, hmem, hok⟩
+  have hdeq : d = stub.length := by
+    apply Classical.byContradiction
+    intro hne
+    have := huniq d (by rw [hsplit]; simp) hne
+    rw [this] at hdok; cases hdok
+  subst hdeq
+  exact detect_correct_real_partial B stub nonce size enc hn hs f hd maxrange e hpe ⟨pre, post, hsplit, hpre⟩
+
+/-- A hypothesis-free instance (conditions on the bytes only, nothing about scanner, ranking or MZ verdicts): if, within
+the first `2·maxrange + 3` bytes, `ff ff ff` occurs only at the end of the stub, and no other offset below `maxrange`
+satisfies the size relation, then — for every buffer size — `from_file` returns the true view. -/
+theorem detect_correct_real_clean (B : Nat) (hB : 1 ≤ B) (stub nonce size enc : Bytes)
+    (hn : nonce.length = 4) (hs : size.length = 4)
+    (f : PyFile) (hd : f.data = stub ++ nonce ++ size ++ enc) (maxrange : Nat) (hm : maxrange ≠ 0)
+    (hcand : (∃ s0, stub = s0 ++ eofMarker ∧ stub.length ≤ maxrange) ∨
+         (u32 (C20.xor nonce size) + (stub.length : Int) + 8 = (f.data.length : Int) ∧ stub.length < maxrange))
+    (e : Nat) (hpe : PeHeaderAt0 (rollDecode nonce enc) 1024 e)
+    (hmark : ∀ h ∈ C15.occ f.data eofMarker, h ≤ 2 * maxrange → h + 3 = stub.length)
+    (hsize : ∀ c, c < maxrange → SizeRel f.data (f.data.length : Int) c → c = stub.length) :
+    ∃ x, fromFileReal B f maxrange = .ok x ∧ Layout stub nonce size enc x ∧
+      x.fh.pos = stub.length + 8 + 0 ∧ tell x = 0 := by
+  apply detect_correct_real_unique B hB stub nonce size enc hn hs f hd maxrange ?_ e hpe
+  · intro d hdm hne
+    rcases (real_candidates_characterised B hB f maxrange d).1 hdm with ⟨h, hh, rfl, hb⟩ | ⟨hlt, hrel⟩
+    · exact absurd (hmark h hh (hb hm)) hne
+    · exact absurd (hsize d hlt hrel) hne
+  · rcases hcand with ⟨s0, h1, h2⟩ | h
+    · exact Or.inl ⟨s0, h1, Or.inr h2⟩
+    · exact Or.inr h
+
+/-- With a buffer that holds the limited range (`maxrange + 3 ≤ B`: the shipped configuration, `maxrange = 1024` and
+`io.DEFAULT_BUFFER_SIZE = 8192`) the limited marker scan is exact — the occurrences starting at or before `maxrange` —
+and so is the candidate set. -/
+theorem real_candidates_exact_large_buffer (B : Nat) (f : PyFile) (maxrange : Nat) (hm : maxrange ≠ 0)
+    (hB : maxrange + 3 ≤ B) (c : Nat) :
+    realHits B f maxrange = (C15.occ f.data eofMarker).filter (fun p => p ≤ maxrange) ∧
+    (c ∈ realCandidates B f maxrange ↔
+      (∃ h ∈ C15.occ f.data eofMarker, h ≤ maxrange ∧ c = h + 3) ∨
+      (c < maxrange ∧ SizeRel f.data (f.data.length : Int) c)) := by
+  have hx := realHits_large_buffer B f maxrange hm hB
+  refine ⟨hx, ?_⟩
+  simp only [realCandidates, candidates_mem, size_offsets_exact, hx, List.mem_filter, decide_eq_true_eq]
+  constructor
+  · rintro (⟨h, ⟨h1, h2⟩, rfl⟩ | h)
+    · exact Or.inl ⟨h, h1, h2, rfl⟩
+    · exact Or.inr h
+  · rintro (⟨h, h1, h2, rfl⟩ | h)
+    · exact Or.inl ⟨h, ⟨h1, h2⟩, rfl⟩
+    · exact Or.inr h
+
+/-- The answer of `from_file` does not depend on the read-buffer size when there is no limit (`maxrange = 0`) or when
+both buffers hold the limited range.  (For smaller buffers it does: the limit of `iter_find_needle` is compared with
+block-relative indices, see C15 `needle_limit_*`; the theorems above hold for every `B ≥ 1` regardless.) -/
+theorem detect_buffer_independent (B B' : Nat) (f : PyFile) (maxrange : Nat)
+    (h : (maxrange = 0 ∧ 1 ≤ B ∧ 1 ≤ B') ∨ (maxrange + 3 ≤ B ∧ maxrange + 3 ≤ B')) :
+    fromFileReal B f maxrange = fromFileReal B' f maxrange := by
+  rw [fromFileReal_full, fromFileReal_full]
+  congr 1
+  rcases h with ⟨rfl, h1, h2⟩ | ⟨h1, h2⟩
+  · rw [realHits_nolimit B h1, realHits_nolimit B' h2]
+  · by_cases hm : maxrange = 0
+    · subst hm; rw [realHits_nolimit B (by omega), realHits_nolimit B' (by omega)]
+    · rw [realHits_large_buffer B f maxrange hm h1, realHits_large_buffer B' f maxrange hm h2]
+
+/-! ### seeks whose logical target is negative -/
+
+/-- `read(n)` in EVERY state of the object (negative logical position, wrong nonce offset, cursor past the end): it
+never raises, changes nothing but the cursor, and the reported position advances by exactly the number of bytes returned. -/
+theorem read_advances_everywhere (x : XorFile) (n : Option Int) :
+    ∃ out x', read x n = .ok (out, x') ∧ x' = x.withPos (x.fh.pos + out.length) ∧
+      tell x' = tell x + (out.length : Int) := by
+  obtain ⟨out, h⟩ := read_advances x n
+  refine ⟨out, _, h, rfl, ?_⟩
+  simp only [tell, PyFile.tell, XorFile.withPos]
+  omega
+
+/-- `seek(off, whence)` of the view, exactly, for every state and every argument: the raw target is
+`off + nonce_offset + 8` (SET), `raw position + off` (CUR), `raw size + off` (END).  A non-negative raw target is taken
+— whatever its logical value `raw target − (nonce_offset + 8)`, which `tell()` then reports, also when negative; a
+negative raw target behaves as on the underlying file: SET raises ValueError (BytesIO) / OSError (OS file), CUR/END
+clamp to raw 0 on BytesIO and raise OSError on an OS file.  A raising seek leaves the object unchanged. -/
+theorem seek_exact (x : XorFile) (off : Int) (wh : Nat) :
+    (wh ≤ 2 → seek x off wh =
+      if 0 ≤ rawTarget x off wh then .ok ((rawTarget x off wh).toNat, x.withPos (rawTarget x off wh).toNat)
+      else belowStart x wh) ∧
+    (2 < wh → seek x off wh = .error .valueError) ∧
+    (0 ≤ rawTarget x off wh →
+      tell (x.withPos (rawTarget x off wh).toNat) = rawTarget x off wh - ((x.nonceOff : Int) + 8)) := by
+  refine ⟨seek_exact' x off wh, seek_bad_whence x off wh, ?_⟩
+  intro h
+  simp only [tell, PyFile.tell, XorFile.withPos]
+  omega
+
+/-- A seek whose logical target `t` is negative, compared with the plain file `pf` over the decoded bytes (same file
+kind).  The plain file raises (SET: ValueError / OSError; CUR, END on an OS file: OSError) or clamps to 0 (CUR, END on
+BytesIO).  The view does the same only when the RAW target `t + nonce_offset + 8` is negative; otherwise the seek
+succeeds and the view stands inside the stub / nonce / size dword, `tell()` reporting the negative value `t`. -/
+theorem negative_seek_exact {stub nonce size enc : Bytes} {x : XorFile} {pf : PyFile}
+    (hA : Abs stub nonce size enc x pf) (off : Int) (wh : Nat) (hwh : wh ≤ 2)
+    (ht : logicalTarget pf off wh < 0) :
+    plainStep pf (.seek off wh) = plainBelowStart pf wh ∧
+    (logicalTarget pf off wh + ((stub.length : Int) + 8) < 0 →
+      stepOp x (.seek off wh) = (belowStart x wh).map fun r => (.seek r.1, r.2)) ∧
+    (0 ≤ logicalTarget pf off wh + ((stub.length : Int) + 8) →
+      ∃ q : Nat, (q : Int) = logicalTarget pf off wh + ((stub.length : Int) + 8) ∧
+        stepOp x (.seek off wh) = .ok (.seek q, x.withPos q) ∧ tell (x.withPos q) = logicalTarget pf off wh) := by
+  have hraw := rawTarget_abs hA off wh
+  refine ⟨plainStep_negative pf off wh hwh ht, ?_, ?_⟩
+  · intro h
+    simp only [stepOp]
+    rw [(seek_exact x off wh).1 hwh, if_neg (by omega)]
+  · intro h
+    refine ⟨(rawTarget x off wh).toNat, by omega, ?_, ?_⟩
+    · simp only [stepOp]
+      rw [(seek_exact x off wh).1 hwh, if_pos (by omega)]
+      rfl
+    · rw [(seek_exact x off wh).2.2 (by omega), hA.layout.off]; omega
+
+/-- Hence: on a seek with a negative logical target the view and the plain file agree exactly when the raw target is
+negative too and the underlying file raises (SET, or any whence on an OS file) — both then raise the same exception
+and stay where they were.  In every other case the view's seek SUCCEEDS and leaves a negative logical position. -/
+theorem negative_seek_agrees_iff {stub nonce size enc : Bytes} {x : XorFile} {pf : PyFile}
+    (hA : Abs stub nonce size enc x pf) (hk : pf.kind = x.fh.kind) (off : Int) (wh : Nat) (hwh : wh ≤ 2)
+    (ht : logicalTarget pf off wh < 0) :
+    ((∃ e, plainStep pf (.seek off wh) = .error e ∧ stepOp x (.seek off wh) = .error e) ↔
+      (logicalTarget pf off wh + ((stub.length : Int) + 8) < 0 ∧ (wh = 0 ∨ x.fh.kind = .osFile))) ∧
+    (¬ (logicalTarget pf off wh + ((stub.length : Int) + 8) < 0 ∧ (wh = 0 ∨ x.fh.kind = .osFile)) →
+      ∃ v x', stepOp x (.seek off wh) = .ok (.seek v, x') ∧ tell x' < 0) := by
+  obtain ⟨hp, hlo, hhi⟩ := negative_seek_exact hA off wh hwh ht
+  have hoff := hA.layout.off
+  by_cases hneg : logicalTarget pf off wh + ((stub.length : Int) + 8) < 0
+  · have hv := hlo hneg
+    by_cases hw0 : wh = 0
+    · subst hw0
+      have e1 : plainStep pf (.seek off 0) = .error x.fh.negSeekExc := by
+        rw [hp]; simp only [plainBelowStart, if_true, PyFile.negSeekExc, hk]
+      have e2 : stepOp x (.seek off 0) = .error x.fh.negSeekExc := by
+        rw [hv]; simp only [belowStart, if_true]; rfl
+      refine ⟨⟨fun _ => ⟨hneg, Or.inl rfl⟩, fun _ => ⟨_, e1, e2⟩⟩, fun h => absurd ⟨hneg, Or.inl rfl⟩ h⟩
+    · cases hkind : x.fh.kind with
+      | osFile =>
+        have e1 : plainStep pf (.seek off wh) = .error .osError := by
+          rw [hp]; simp only [plainBelowStart, if_neg hw0, hk, hkind]
+        have e2 : stepOp x (.seek off wh) = .error .osError := by
+          rw [hv]; simp only [belowStart, if_neg hw0, hkind]; rfl
+        refine ⟨⟨fun _ => ⟨hneg, Or.inr rfl⟩, fun _ => ⟨_, e1, e2⟩⟩, fun h => absurd ⟨hneg, Or.inr rfl⟩ h⟩
+      | bytesIO =>
+        have e2 : stepOp x (.seek off wh) = .ok (.seek 0, x.withPos 0) := by
+          rw [hv]; simp only [belowStart, if_neg hw0, hkind]; rfl
+        refine ⟨⟨?_, ?_⟩, fun _ => ⟨0, _, e2, ?_⟩⟩
+        · rintro ⟨e, _, h2⟩
+          rw [e2] at h2; cases h2
+        · rintro ⟨_, h | h⟩
+          · exact absurd h hw0
+          · cases h
+        · simp only [tell, PyFile.tell, XorFile.withPos]; omega
+  · obtain ⟨q, hq, hs, htell⟩ := hhi (by omega)
+    refine ⟨⟨?_, fun h => absurd h.1 hneg⟩, fun _ => ⟨q, _, hs, by rw [htell]; exact ht⟩⟩
+    rintro ⟨e, _, h2⟩
+    rw [hs] at h2; cases h2
+
+/-- `history_refines` without the hypothesis on seeks (an exception of the plain file being matched by the same
+exception of the view).  It is FALSE for the code as it is: see `history_refines_all_seeks_false`. -/
+def history_refines_all_seeks : Prop :=
+  ∀ (stub nonce size enc : Bytes) (x : XorFile), Layout stub nonce size enc x →
+    ∀ (p : Nat), x.fh.pos = stub.length + 8 + p → ∀ (ops : List Op),
+      match plainRun { data := rollDecode nonce enc, pos := p, kind := x.fh.kind } ops with
+      | .ok (outs, pf') =>
+        run x ops = .ok (outs.map (Out.shift (stub.length + 8)), x.withPos (stub.length + 8 + pf'.pos))
+      | .error e => run x ops = .error e
+
 /-! ### the hypotheses are satisfiable / concrete instances -/
 
 def exFile : PyFile := { data := [0x90, 0xff, 0xff, 0xff] ++ [1, 2, 3, 4] ++ [9, 9, 9, 9] ++ [0x11, 0x22, 0x33, 0x44, 0x55, 0x66] }
@@ -354,5 +716,38 @@ example : u32 (C20.xor [1, 2, 3, 4] [7, 2, 3, 4]) = 6 := by decide
 /-- a minimal plaintext that satisfies `PeHeaderAt0`: e_lfanew = 64, Machine = 0x8664 at offset 68 -/
 example : PeHeaderAt0 (List.replicate 60 0 ++ [64, 0, 0, 0] ++ [0x50, 0x45, 0, 0] ++ [0x64, 0x86] ++ List.replicate 18 0) 1024 64 :=
   ⟨by decide, by decide, by decide, by decide, by decide, Or.inl (by decide)⟩
+
+/-- The counterexample to `history_refines_all_seeks` (stub of 4 bytes, so logical 0 is raw 12): `seek(-1)` raises
+ValueError on a BytesIO over the decoded bytes, but succeeds on the view — it returns raw offset 11, `tell()` then
+reports −1 and the next read starts inside the size dword. -/
+theorem history_refines_all_seeks_false : ¬ history_refines_all_seeks := by
+  intro h
+  have h1 := h [0x90, 0xff, 0xff, 0xff] [1, 2, 3, 4] [9, 9, 9, 9] [0x11, 0x22, 0x33, 0x44, 0x55, 0x66] exView
+    ⟨rfl, rfl, rfl, rfl, rfl⟩ 0 rfl [.seek (-1) 0]
+  have hp : plainRun { data := rollDecode [1, 2, 3, 4] [0x11, 0x22, 0x33, 0x44, 0x55, 0x66], pos := 0, kind := exView.fh.kind }
+      [.seek (-1) 0] = .error .valueError := rfl
+  rw [hp] at h1
+  have hr : run exView [.seek (-1) 0] = .ok ([.seek 11], exView.withPos 11) := rfl
+  rw [hr] at h1
+  cases h1
+
+example : run exView [.seek (-1) 0, .tell, .seek (-13) 1, .tell] =
+    .ok ([.seek 11, .pos (-1), .seek 0, .pos (-12)], exView.withPos 0) := by rfl
+
+/-! a complete stage that meets the byte-level hypotheses of `detect_correct_real_clean` (buffer size 7, OS file) -/
+def exPlain : Bytes := List.replicate 60 0 ++ [64, 0, 0, 0] ++ [0x50, 0x45, 0, 0] ++ [0x64, 0x86] ++ List.replicate 17 0 ++ [1]
+def exStub : Bytes := [0x90, 0xff, 0xff, 0xff]
+def exNonce : Bytes := [1, 2, 3, 4]
+def exSize : Bytes := [89, 2, 3, 4]
+def exStage : PyFile := { data := exStub ++ exNonce ++ exSize ++ rollEncode exNonce exPlain, kind := .osFile }
+
+example : ∃ x, fromFileReal 7 exStage 1024 = .ok x ∧ Layout exStub exNonce exSize (rollEncode exNonce exPlain) x ∧
+    x.fh.pos = exStub.length + 8 + 0 ∧ tell x = 0 := by
+  apply detect_correct_real_clean 7 (by omega) exStub exNonce exSize (rollEncode exNonce exPlain) rfl rfl exStage rfl 1024
+    (by omega) (Or.inl ⟨[0x90], rfl, by decide⟩) 64
+  · rw [rollDecode_rollEncode _ _ rfl]
+    exact ⟨by decide, by decide, by decide, by decide, by decide, Or.inl (by decide)⟩
+  · decide +kernel
+  · decide +kernel
 
 end C09
